@@ -21,6 +21,7 @@ import (
 	"os/exec"
 	"path/filepath"
 	"regexp"
+	"runtime"
 	"runtime/debug"
 	"sort"
 	"strconv"
@@ -987,6 +988,16 @@ type Case struct {
 	Sched    bool  `json:"sched,omitempty"`
 	Init     []Op  `json:"init,omitempty"`
 	Schedule []int `json:"schedule,omitempty"`
+	// Small schedule part: Init stays in the active log file, which is then made due; Other = "tick" (the partition's
+	// periodic-compaction tick) or "writer" (a second writer thread running Ops2).
+	Small bool   `json:"small,omitempty"`
+	Other string `json:"other,omitempty"`
+	Ops2  []Op   `json:"ops2,omitempty"`
+	// DevCost: the schedules of this scenario are bounded by deviations from the default schedule (every non-default
+	// choice costs 1) instead of preemptions (choices offered when the running thread blocks or ends are free);
+	// Bound is the bound the scenario was explored with (documentation: a replay executes Schedule as is).
+	DevCost bool `json:"deviation_cost,omitempty"`
+	Bound   int  `json:"bound,omitempty"`
 	// Want: the violation class this case was recorded for (a history may show several); replay reports
 	// whether exactly this class reproduces.
 	Want string `json:"want,omitempty"`
@@ -1404,6 +1415,367 @@ func replaySched(t *testing.T, cs Case) (bool, string) {
 		if !base0[sg] {
 			sg = "schedule-dependent/" + sg
 		}
+		if sg == cs.Want || cs.Want == "" {
+			return true, obs + fmt.Sprintf(" -> %s: %s [%s]", fd.Stage, fd.Why, sg)
+		}
+	}
+	return false, obs + fmt.Sprintf(" -> class %q not reproduced", cs.Want)
+}
+
+// ---------------------------------------------------------------------------------------------------------
+// small schedule part (BOTH tiers): a writer against the retirement + compaction of the active log file
+//
+// The index is opened with the default log threshold, the initial creates stay in the active log file L0-1; then the
+// threshold of the (single) partition is lowered to 1, so the non-empty log file is DUE (the state a log file is in once
+// it is older than maxLogFileAge; every log file the writer fills is due as well: its own CheckLogFile rolls it).
+// Threads: ONE writer creating 1-2 series batches, and either the partition's periodic-compaction tick (the body of
+// Partition.runPeriodicCompaction's ticker case: if NeedsCompaction(true) { Compact() }) or a second writer creating one
+// batch. Everything the partition does by itself (go Compact from checkLogFile, go compactLogFile, the follow-up Compact,
+// level compactions, manifest swaps, log-file removal) runs in the partition's own goroutines under the scheduler.
+// Decision points: the write Locks of Partition.mu and LogFile.mu, the RLocks of the writer's path and of the
+// compaction's log-file read, the threads' call boundaries; all other RLocks pass silently (they still block while a
+// writer holds the lock). Bound: deviations from the default schedule (every non-default choice costs 1).
+
+var CfgSmall = Cfg{Name: "sched-small", MaxLog: 0, PartN: 1}
+
+// smallPoints: the functions whose RLock is a decision point (besides every write Lock).
+var smallRLockPoints = []string{"createSeriesListIfNotExists", "(*Partition).CheckLogFile", "(*Partition).RetainFileSet", "(*LogFile).CompactTo", "(*Partition).NeedsCompaction"}
+
+func smallFilter(kind vrt.OpKind, label string) bool {
+	switch os.Getenv("C14_SMALL_POINTS") { // development aid
+	case "locks":
+		return kind == vrt.OpLock || kind == vrt.OpRLock || kind == vrt.OpHook
+	case "wlocks":
+		return kind == vrt.OpLock || kind == vrt.OpHook
+	}
+	if kind == vrt.OpLock || kind == vrt.OpHook {
+		return true
+	}
+	if kind == vrt.OpRLock {
+		for _, f := range smallRLockPoints {
+			if strings.Contains(label, f) {
+				return true
+			}
+		}
+	}
+	return false
+}
+
+func smallName(cs Case) string {
+	o := "periodic-compaction tick"
+	if cs.Other == "writer" {
+		o = "writer2 [" + opsString(cs.Ops2) + "]"
+	}
+	return fmt.Sprintf("init [%s] in the active log file (due), writer [%s] || %s", opsString(cs.Init), opsString(cs.Ops), o)
+}
+
+func smallHarness(base string, cs Case, out *schedOut) *vrt.Harness {
+	return &vrt.Harness{Name: "c14-small:" + smallName(cs), Filter: smallFilter, DeviationCost: cs.DevCost, Body: func(x *vrt.Exec) {
+		*out = schedOut{}
+		for _, op := range append(append(append([]Op{}, cs.Init...), cs.Ops...), cs.Ops2...) {
+			if op.Kind != OpCreate {
+				out.Harness = "small schedule part: only creates are supported (the model of concurrent writers is a set union)"
+				return
+			}
+		}
+		dir, err := os.MkdirTemp(base, "s")
+		if err != nil {
+			out.Harness = err.Error()
+			return
+		}
+		defer os.RemoveAll(dir)
+		m := &Model{}
+		out.Model = m
+		names := NewIDNames()
+		seen := map[string]bool{}
+		record := func(step int, stage string, fails []*Fail, mm *Model, lay string) {
+			for _, f := range fails {
+				sg := sigOf(cs.Cfg, f, mm, lay, true)
+				if !seen[sg] {
+					seen[sg] = true
+					out.Found = append(out.Found, Found{sg, step, stage, f.Why})
+				}
+			}
+		}
+		w, err := OpenWorld(dir, cs.Cfg)
+		if err != nil {
+			out.Harness = "open: " + err.Error()
+			return
+		}
+		for _, op := range cs.Init {
+			if err := w.Exec(op); err != nil {
+				out.Harness = fmt.Sprintf("init %s: %v", op, err)
+				w.Close()
+				return
+			}
+			m.Apply(op)
+		}
+		synctest.Wait() // start-up goroutines (runPeriodicCompaction's first Compact) have come to rest
+		part := w.Idx.PartitionAt(0)
+		part.VerifSetMaxLogFileSize(1)
+		var opErr string
+		var acked [2][]Op
+		writer := func(k int, ops []Op) func() {
+			return func() {
+				for i, op := range ops {
+					vrt.Hook("op:" + op.Kind)
+					if err := w.Exec(op); err != nil {
+						opErr = fmt.Sprintf("writer%d op %d %s: %v", k+1, i, op, err)
+						return
+					}
+					acked[k] = append(acked[k], op)
+				}
+			}
+		}
+		x.Go("writer", writer(0, cs.Ops))
+		if cs.Other == "writer" {
+			x.Go("writer2", writer(1, cs.Ops2))
+		} else {
+			x.Go("compaction-tick", func() {
+				vrt.Hook("tick")
+				if part.NeedsCompaction(true) { // the ticker case of Partition.runPeriodicCompaction
+					part.Compact()
+				}
+			})
+		}
+		x.S.MaxSteps = 20000
+		x.Run()
+		if x.S.Deadlock || x.S.StepCap {
+			x.S.Abort()
+			w.Close()
+			return
+		}
+		x.S.Drain()
+		for _, ops := range acked {
+			for _, op := range ops {
+				m.Apply(op)
+			}
+		}
+		if opErr != "" {
+			out.Harness = opErr
+			w.settle()
+			w.Close()
+			return
+		}
+		w.settle() // threshold 1: every log file is compacted, then the levels
+		names.Learn(w)
+		got, err := ReadIndex(w, names, false)
+		if err != nil {
+			out.Harness = "query: " + err.Error()
+			w.Close()
+			return
+		}
+		out.Final = got
+		record(len(cs.Ops)-1, "quiescent (all compactions awaited)", CompareViews(got, Expected(m.Live)), m, layout(w))
+		w.Close()
+		rcfg := cs.Cfg
+		rcfg.Settle = true
+		CheckRecovery(dir, rcfg, Expect{M: m}, names, cs.Probe, func(stage string, fails []*Fail, mm *Model, lay string, got *View) {
+			for _, f := range fails {
+				if f.Group == "recovery" && f.Dir != "open-failed" {
+					out.Harness = fmt.Sprintf("tail %s: %s: %s", stage, f.Query, f.Why)
+					return
+				}
+			}
+			record(len(cs.Ops), stage, fails, mm, lay)
+		})
+	}}
+}
+
+func smallScenarios(thorough bool) []Case {
+	c := func(s ...int) Op { return Op{Kind: OpCreate, S: s} }
+	mk := func(dev bool, bound int, init []Op, ops []Op, other string, ops2 []Op) Case {
+		return Case{Cfg: CfgSmall, Sched: true, Small: true, Init: init, Ops: ops, Other: other, Ops2: ops2, Probe: ProbeNone, DevCost: dev, Bound: bound}
+	}
+	const preempt, deviation = false, true
+	if !thorough {
+		return []Case{
+			mk(preempt, 2, []Op{c(0)}, []Op{c(1)}, "tick", nil),          // same measurement: the batch adds a tag value
+			mk(preempt, 1, []Op{c(0)}, []Op{c(1)}, "writer", []Op{c(4)}), // two writers, one batch each
+			mk(preempt, 1, []Op{c(0)}, []Op{c(4)}, "tick", nil),          // the batch brings a new measurement
+		}
+	}
+	return []Case{
+		mk(preempt, 3, []Op{c(0)}, []Op{c(1)}, "tick", nil),
+		mk(preempt, 3, []Op{c(0)}, []Op{c(4)}, "tick", nil),
+		mk(preempt, 2, []Op{c(0)}, []Op{c(1)}, "writer", []Op{c(4)}),
+		mk(preempt, 2, []Op{c(0, 1, 2, 3)}, []Op{c(4, 5)}, "tick", nil),
+		mk(preempt, 2, []Op{c(4)}, []Op{c(0, 1, 2, 3)}, "tick", nil),
+		mk(preempt, 2, nil, []Op{c(0)}, "writer", []Op{c(1)}),
+		mk(deviation, 3, []Op{c(0)}, []Op{c(2), c(3)}, "tick", nil), // two batches: the second goes to the log file the first one's roll created
+		mk(deviation, 2, nil, []Op{c(0), c(1)}, "tick", nil),        // empty log file: the tick has nothing to do unless the writer was first
+		mk(deviation, 2, []Op{c(0)}, []Op{c(1), c(4)}, "writer", []Op{c(2)}),
+	}
+}
+
+// exploreSharded enumerates every schedule of h with <= bound cost. Every shard runs the root execution; the subtrees
+// of the root's alternatives are dealt round-robin (the root itself is visited by shard 0).
+func exploreSharded(t *testing.T, h *vrt.Harness, bound, shard, nshards int, stop func() bool, visit func(*vrt.Result)) vrt.Stats {
+	st := vrt.Stats{Bound: bound, Complete: true}
+	var c1 int
+	var rec func(prefix []int, level int, visitThis bool)
+	rec = func(prefix []int, level int, visitThis bool) {
+		if stop != nil && stop() {
+			st.Complete = false
+			return
+		}
+		x := vrt.RunOnce(t, h, prefix)
+		if visitThis {
+			st.Executions++
+			st.Transitions += int64(len(x.Steps))
+			if len(x.Steps) > st.MaxDepth {
+				st.MaxDepth = len(x.Steps)
+			}
+			visit(x)
+		}
+		if x.Diverged != "" {
+			return
+		}
+		pre := 0
+		for i := 0; i < len(x.Steps); i++ {
+			sp := x.Steps[i]
+			if i >= len(prefix) {
+				if len(sp.Enabled) > 1 && visitThis {
+					st.Nodes++
+				}
+				for alt := 1; alt < len(sp.Enabled); alt++ {
+					if pre+sp.Costs[alt] > bound {
+						continue
+					}
+					np := append(append([]int{}, x.Choices[:i]...), alt)
+					if level == 0 {
+						c1++
+						if c1%nshards == shard {
+							rec(np, 1, true)
+						}
+					} else {
+						rec(np, level+1, true)
+					}
+				}
+			}
+			if sp.Preempt {
+				pre++
+			}
+		}
+	}
+	rec(nil, 0, shard == 0)
+	return st
+}
+
+// runSmallSched explores one scenario of the small schedule part (this shard's share of its schedule tree).
+func runSmallSched(t *testing.T, c *vlib.Ctx, base string, si int, sc Case, stop func() bool) (complete bool) {
+	bound := sc.Bound
+	if v := envInt("C14_SMALL_BOUND", -1); v >= 0 { // development aid
+		bound = v
+	}
+	var out schedOut
+	h := smallHarness(base, sc, &out)
+	st := exploreSharded(t, h, bound, c.Shard, c.NShards, stop, func(r *vrt.Result) {
+		c.Eval(1)
+		devs := 0
+		for _, s := range r.Steps {
+			if s.Preempt {
+				devs++
+			}
+		}
+		if devs > 0 {
+			c.NontrivialN(1)
+		}
+		if r.Diverged != "" {
+			c.HarnessError("small schedule part, " + smallName(sc) + ": " + r.Diverged)
+			return
+		}
+		cs := sc
+		cs.Schedule = r.Choices
+		if r.Deadlock || r.StepCap {
+			what := "deadlock"
+			if r.StepCap {
+				what = "livelock(step cap)"
+			}
+			c.Outcome("sched-small:" + what)
+			cs.Want = vlib.JoinSig("sched-small", what)
+			c.Violation(cs.Want, fmt.Sprintf("small schedule part: %s: %s: %s", smallName(sc), what, strings.Join(r.Blocked, "; ")), cs)
+			return
+		}
+		if out.Harness != "" {
+			c.HarnessError(fmt.Sprintf("small schedule part: %s, schedule %v: %s", smallName(sc), r.Choices, out.Harness))
+			return
+		}
+		if len(out.Found) == 0 && out.Final != nil {
+			c.Outcome(fmt.Sprintf("sched-small:end:%d-measurements/%d-live/%d-deviations", len(out.Final.Names), liveN(out.Model), devs))
+			if c.WantSample() && devs == bound {
+				c.Sample(map[string]any{"part": "small schedules", "scenario": smallName(sc), "schedule": r.Choices, "deviations": devs, "m0_series": out.Final.MSeries["m0"], "m1_series": out.Final.MSeries["m1"]})
+			}
+		}
+		for _, fd := range out.Found {
+			// every writer op is a create: nothing is stale by design here, so every class is schedule-made
+			sg := "schedule-dependent/" + fd.Sig
+			c.Outcome("FAIL:sched-small:" + fd.Sig[:strings.LastIndex(fd.Sig, "/")])
+			cs.Want = sg
+			var tr []string
+			for _, s := range r.Steps {
+				if s.Preempt {
+					tr = append(tr, fmt.Sprintf("step %d: %s at %s instead of the default thread", len(tr), r.Names[s.Thread], s.Label))
+				}
+			}
+			c.Violation(sg, fmt.Sprintf("small schedule part: %s, %d deviations (%s), %s: %s", smallName(sc), devs, strings.Join(tr, "; "), fd.Stage, fd.Why), cs)
+		}
+	})
+	c.StateN(st.Nodes)
+	c.Transition(st.Transitions)
+	c.Trace(st.Executions)
+	c.Extra("sched_small_states", st.Nodes)
+	c.Extra("sched_small_transitions", st.Transitions)
+	c.Extra("sched_small_traces", st.Executions)
+	c.Extra(fmt.Sprintf("sched_small_traces_scenario_%d", si+1), st.Executions)
+	return st.Complete
+}
+
+// runSmallSchedules is the small schedule phase of Run; it may use at most `share` of wall time.
+func runSmallSchedules(t *testing.T, c *vlib.Ctx, share time.Duration) {
+	defer func() {
+		if r := recover(); r != nil {
+			c.HarnessError(fmt.Sprintf("small schedule part: explorer panicked: %v\n%s", r, debug.Stack()))
+		}
+	}()
+	base := vlib.Scratch("c14ss-")
+	defer os.RemoveAll(base)
+	deadline := time.Now().Add(share)
+	stop := func() bool { return c.Expired() || time.Now().After(deadline) }
+	scs := smallScenarios(c.Thorough())
+	if c.Shard == 0 {
+		c.Extra("sched_small_scenarios", int64(len(scs)))
+	}
+	for si, sc := range scs {
+		if stop() || !runSmallSched(t, c, base, si, sc, stop) {
+			c.Cap(fmt.Sprintf("the small schedule part's share of the budget expired in scenario %d of %d (%s); the earlier scenarios are complete", si+1, len(scs), smallName(sc)))
+			return
+		}
+	}
+}
+
+func replaySmallSched(t *testing.T, cs Case) (bool, string) {
+	base := vlib.Scratch("c14ssr-")
+	defer os.RemoveAll(base)
+	var out schedOut
+	r := vrt.RunOnce(t, smallHarness(base, cs, &out), cs.Schedule)
+	obs := fmt.Sprintf("small schedule part: %s schedule=%v", smallName(cs), cs.Schedule)
+	if os.Getenv("C14_SMALL_TRACE") != "" { // development aid
+		for i, s := range r.Steps {
+			fmt.Printf("%3d T%d(%s) %s enabled=%v costs=%v choice=%d\n", i, s.Thread, r.Names[s.Thread], s.Label, s.Enabled, s.Costs, s.Choice)
+		}
+	}
+	if r.Diverged != "" {
+		return false, obs + " -> diverged: " + r.Diverged
+	}
+	if r.Deadlock || r.StepCap {
+		return strings.HasPrefix(cs.Want, "sched-small/"), obs + fmt.Sprintf(" -> deadlock=%v stepcap=%v blocked=%v", r.Deadlock, r.StepCap, r.Blocked)
+	}
+	if out.Harness != "" {
+		return false, obs + " -> harness problem: " + out.Harness
+	}
+	for _, fd := range out.Found {
+		sg := "schedule-dependent/" + fd.Sig
 		if sg == cs.Want || cs.Want == "" {
 			return true, obs + fmt.Sprintf(" -> %s: %s [%s]", fd.Stage, fd.Why, sg)
 		}
@@ -2374,7 +2746,7 @@ func runCrash(c *vlib.Ctx) {
 			c.HarnessError(fmt.Sprintf("crash family: explorer panicked: %v\n%s", r, debug.Stack()))
 		}
 	}()
-	if os.Getenv("C14_ONLY") == "seq" {
+	if os.Getenv("C14_ONLY") == "seq" || os.Getenv("C14_ONLY") == "small" {
 		return
 	}
 	scratch := vlib.Scratch("c14c-")
@@ -2457,7 +2829,7 @@ func TestCheck(t *testing.T) {
 		return
 	}
 	vlib.Main(t, &vlib.Check{
-		ID: "C14", Level: "model_checking", QuickBudgetS: 60, ThoroughBudgetS: 780, WorkerEnv: []string{"GOMAXPROCS=1"},
+		ID: "C14", Level: "model_checking", QuickBudgetS: 70, ThoroughBudgetS: 870, WorkerEnv: []string{"GOMAXPROCS=1"},
 		Rule: "every op sequence within the stated length bounds, each executed from scratch on a real tsi1.Index on a real tsdb.SeriesFile in a fresh directory, over a universe of 6 series (S0 m0,a=x; S1 m0,a=y; S2 m0,a=x,b=x; S3 m0,b=y; S4 m1,a=x; S5 m1,a=y,b=x: 2 measurements x 2 tag keys x 2 values; S2 is the only holder of m0.b=x). " +
 			"Ops: create{S0},{S2},{S4},{S0..S3},{S0..S5} (Index.CreateSeriesListIfNotExists); dropS S0|S2|S4 = the engine's series delete in a single-shard database (Index.DropSeries(id,key,false), DropMeasurementIfSeriesNotExist, SeriesFile.DeleteSeriesID); dropM m0 = the engine's measurement delete (the same for every series of m0); dropMd m0|m1 = Index.DropMeasurement called directly, then the series ids deleted from the series file; reopen = Index.Close, SeriesFile.Close, SeriesFile.Open, Index.Open; compact = forced log compaction at the step boundary (log threshold 1 on every partition, Index.Compact()+Wait() until no partition needs compaction: log -> L1, L1+L1 -> L2, ..., threshold restored). " +
 			"Configurations: explicit (default 1 MiB log threshold, 1 partition: files change only at compact ops), auto (threshold 1, 1 partition: every op's log file is rolled and compacted at once, awaited after every Index call), mid (threshold 40 bytes, 2 partitions: rolls after ~3 entries, awaited). " +
@@ -2465,7 +2837,8 @@ func TestCheck(t *testing.T) {
 			"After EVERY op, after a final restart, and after each of three probe ops on the restarted index (create all 6 series; engine delete of m0; of m1 — index-only drops in the shared families) every metadata query is compared with the view of the model's live series: MeasurementIterator, MeasurementExists(m); TagKeyIterator(m), HasTagKey(m,k); TagValueIterator(m,k), HasTagValue(m,k,v) on the Index; MeasurementSeriesIDIterator(m), TagKeySeriesIDIterator(m,k), TagValueSeriesIDIterator(m,k,v) through tsdb.IndexSet{index, series file} (ids mapped back to series) for both measurements, both keys, both values (also for measurements/keys/values that no longer exist: expected empty/false). A history is executed to its end; every distinct violation class it shows is recorded. " +
 			"State = model state (per series live / dropped-but-still-in-series-file / absent) + file layout per partition (log empty/non-empty, index file levels); transition = one executed op; trace = one complete history validated on the implementation. Non-trivial = histories containing a create (distinct by construction), executions with >= 1 preemption. " +
 			"SCHEDULE PART (thorough tier only, with the wall budget the sequential families leave; the evidence names the phase it stopped in): log threshold 1, 1 partition, nothing awaited between calls; initial index content in {empty, create{S0..S3}, create{S0..S3}+dropS S2} (fully compacted), ONE writer thread running every program of length 1 (then 2) over {create{S0},{S2},{S0..S3}, dropS S2, dropM m0} against the partition's own goroutines (checkLogFile -> go Compact -> go compactLogFile / compactToLevel, manifest swap, file removal), which are started by the writer's calls; phases: every schedule with 0 preemptions (all orders of goroutines at blocking points), then <= 1 preemption for length 1, then <= 1 for length 2, at every Lock/RLock of tsi1/partition.go and tsi1/log_file.go (vsched: baton passing inside a synctest bubble; atomics/Once pass silently). When the writer has finished, all compactions are awaited and every query is compared with the writer's model; then restart + probe as above. A class seen only under a schedule other than the preemption-free one is reported as schedule-dependent/<class>; deadlock and step-cap are violations. For the schedule part states = decision nodes of the schedule trees, transitions = scheduling steps, traces = executions. " +
-			"CRASH FAMILY (additional clause, engine crashfs; counted under the crash_* coverage keys and the crash:* outcomes, not under states/transitions/traces; limited to half of the wall budget): histories performed by a writer subprocess (PerformHistory on the real Index + series file, GOMAXPROCS=1) under strace with BEGIN/ACK markers around the initial open of the empty directory and every op; the process exits without closing. Quick: 4 hand-picked histories, every cut (log-appends [create{S0..S3}, dropS S2, create{S4}, dropM m0, create{S0}] with the default log threshold, plus the initial open; shared [create{S0..S3}, dropI S0, reopen, create{S0}, dropI{S0..S3}]; compact [create{S0..S5}, compact (log -> L1 .tsi written and synced, manifest tmp written, synced, renamed, log removed), dropS S2, dropMd m1, create{S2}]; auto-compact (log threshold 1, compaction awaited inside the op) [create{S0,S2}, dropS S2]), split into 13 work items by op window (each item re-records the history and evaluates the cuts of its ops only). Thorough: one work item per op, compact with a second compaction (L1+L1 -> L2), auto-compact with 3 ops, reopen-drop, mid (threshold 40 bytes, 2 partitions), plus EVERY sequence of length 1..2 over the 8-op crash alphabet {create{S0},{S2},{S0..S3}, dropS S2, dropM m0, dropMd m0, reopen, compact} (cuts of the last op only). Per history every prefix of the syscall-level event list (P), every torn length 1..n-1 of the write in flight (T; quick: writes longer than 128 bytes, i.e. manifest and .tsi files, get {1..64, every 512th, last 64}; log-file writes are all shorter), and for the sync classes (*.tsl log files, MANIFEST*, *.tsi) the images with un-fsynced data dropped or its last write torn (U); directory operations in program order; images deduplicated by (content, acknowledged ops, op in flight). One evaluation = one (image, acknowledgement context) recovered in a fresh subprocess by CheckRecovery with compactions awaited: real SeriesFile.Open + Index.Open on the image, every metadata query; then the three probe ops (create all 6 series; engine delete of m0; of m1 — index-only drops for the shared history) with every query after each; then a second restart and every query again. Crash oracle: Open and every query succeed; with no op in flight the answers equal the view of the acknowledged live series; with an op in flight the answers equal the view before the op, after it, or after applying it to a subset of its series, or else every single answer lies between the live series before and after the op (its log entries are not written atomically); after each probe op and after the second restart the answers equal the model exactly. A stale item (\"extra\") is reported under the sequential part's signature (the registered by-design staleness of tsi1 matches it); a missing item, a failing open/query/op, a panic or a dead recovery process gets a crash/ signature (clause, stage, kind of op in flight, kind of file the cut lies in). Non-trivial crash case = at least one acknowledged live series or a create in flight.",
+			"SMALL SCHEDULE PART (engine vsched; BOTH tiers, runs first, limited to 20 s quick / 120 s thorough of wall time; its decision nodes / scheduling steps / executions are added to states / transitions / traces and reported separately as sched_small_states / sched_small_transitions / sched_small_traces, per scenario as sched_small_traces_scenario_<i>): 1 partition, index opened with the default log threshold, the initial create stays in the active log file L0-1; then the partition's log threshold is lowered to 1 so that the non-empty log file is DUE for retirement (the state of a log file older than maxLogFileAge; every log file the writer fills becomes due as well, so its own CheckLogFile rolls it and starts go Compact -> go compactLogFile -> manifest swap -> log-file removal -> follow-up Compact / level compaction, all in the partition's own goroutines under the scheduler). Threads: ONE writer creating 1-2 series batches through Index.CreateSeriesListIfNotExists, against either the partition's periodic-compaction tick (the ticker case of Partition.runPeriodicCompaction: if NeedsCompaction(true) { Compact() }) or a second writer creating one batch. Quick scenarios: init create{S0}: writer [create{S1}] || tick, <= 2 preemptions; writer [create{S1}] || writer2 [create{S4}], <= 1 preemption; writer [create{S4}] || tick, <= 1 preemption (about 0.8 k executions). Thorough (9 scenarios, about 9.5 k executions): the tick scenarios with <= 3 preemptions, two writers <= 2, inits create{S0..S3} / create{S4} / empty with <= 2 preemptions, writer [create{S2}, create{S3}] || tick with <= 3 deviations from the default schedule (every non-default choice costs 1), writer [create{S0}, create{S1}] on an empty log || tick and three batches over two writers with <= 2 deviations. Decision points: every write Lock of Partition.mu and LogFile.mu, the RLocks of the writer's path (RetainFileSet, createSeriesListIfNotExists, CheckLogFile), of the compaction's log-file read (LogFile.CompactTo) and of NeedsCompaction, and the threads' call boundaries; other RLocks pass silently (but block while the lock is write-held). When the harness threads have finished the scheduler is drained, ALL compactions are awaited (threshold 1: every log file is compacted, then the levels) and every metadata query is compared with the view of the acknowledged creates (set union); then Index and series file are restarted (compactions awaited) and every query is compared again. Every class seen here is reported as schedule-dependent/<class> (the writers only create: nothing is stale by design); deadlock and step cap are violations (sched-small/...). " +
+			"CRASH FAMILY (additional clause, engine crashfs; counted under the crash_* coverage keys and the crash:* outcomes, not under states/transitions/traces; limited to 30 s quick / 390 s thorough of wall time): histories performed by a writer subprocess (PerformHistory on the real Index + series file, GOMAXPROCS=1) under strace with BEGIN/ACK markers around the initial open of the empty directory and every op; the process exits without closing. Quick: 4 hand-picked histories, every cut (log-appends [create{S0..S3}, dropS S2, create{S4}, dropM m0, create{S0}] with the default log threshold, plus the initial open; shared [create{S0..S3}, dropI S0, reopen, create{S0}, dropI{S0..S3}]; compact [create{S0..S5}, compact (log -> L1 .tsi written and synced, manifest tmp written, synced, renamed, log removed), dropS S2, dropMd m1, create{S2}]; auto-compact (log threshold 1, compaction awaited inside the op) [create{S0,S2}, dropS S2]), split into 13 work items by op window (each item re-records the history and evaluates the cuts of its ops only). Thorough: one work item per op, compact with a second compaction (L1+L1 -> L2), auto-compact with 3 ops, reopen-drop, mid (threshold 40 bytes, 2 partitions), plus EVERY sequence of length 1..2 over the 8-op crash alphabet {create{S0},{S2},{S0..S3}, dropS S2, dropM m0, dropMd m0, reopen, compact} (cuts of the last op only). Per history every prefix of the syscall-level event list (P), every torn length 1..n-1 of the write in flight (T; quick: writes longer than 128 bytes, i.e. manifest and .tsi files, get {1..64, every 512th, last 64}; log-file writes are all shorter), and for the sync classes (*.tsl log files, MANIFEST*, *.tsi) the images with un-fsynced data dropped or its last write torn (U); directory operations in program order; images deduplicated by (content, acknowledged ops, op in flight). One evaluation = one (image, acknowledgement context) recovered in a fresh subprocess by CheckRecovery with compactions awaited: real SeriesFile.Open + Index.Open on the image, every metadata query; then the three probe ops (create all 6 series; engine delete of m0; of m1 — index-only drops for the shared history) with every query after each; then a second restart and every query again. Crash oracle: Open and every query succeed; with no op in flight the answers equal the view of the acknowledged live series; with an op in flight the answers equal the view before the op, after it, or after applying it to a subset of its series, or else every single answer lies between the live series before and after the op (its log entries are not written atomically); after each probe op and after the second restart the answers equal the model exactly. A stale item (\"extra\") is reported under the sequential part's signature (the registered by-design staleness of tsi1 matches it); a missing item, a failing open/query/op, a panic or a dead recovery process gets a crash/ signature (clause, stage, kind of op in flight, kind of file the cut lies in). Non-trivial crash case = at least one acknowledged live series or a create in flight.",
 		Assumptions: []string{
 			"series sets are read through tsdb.IndexSet (the reader every consumer of a shard's index uses), which removes ids the series file reports as deleted; the raw Index iterators are known to keep such ids by design (Case.Raw reads them for diagnosis only)",
 			"a series drop is the engine's call sequence (tsm1.Engine.deleteSeriesRange): DropSeries(cascade=false) + DropMeasurementIfSeriesNotExist + SeriesFile.DeleteSeriesID; the dropI ops omit the last call exactly as the engine does when another shard of the database still contains the series",
@@ -2476,10 +2849,24 @@ func TestCheck(t *testing.T) {
 			"crash family: ordered-metadata crash model (creates/renames/unlinks persist in program order; data of sync-class files may be lost back to the last fsync = U images; a write in flight may persist any byte prefix = T images); event order = syscall completion order (the series file writes its partitions from concurrent goroutines: a replay searches its own recording for the image by content)",
 			"crash family: the series-file segments are not a sync class here (their durability is C13's business): their data is never dropped, only cut by P/T images",
 			"crash family: the recovery checker waits for the compactions the restart itself starts before it reads or probes (quiescent index)",
-			"the crash family runs first and may use at most half of the wall budget (30 s quick / 390 s thorough); beyond that it is capped (exhaustive:false), never an alarm",
+			"the small schedule part runs first (at most 20 s quick / 120 s thorough), then the crash family, which may use at most 30 s quick / 390 s thorough; beyond that each is capped (exhaustive:false), never an alarm",
+			"small schedule part: the due state of the active log file is produced by lowering the size threshold to 1 after the initial create (test-only setter of the overlay) instead of letting maxLogFileAge (4 h) pass; the periodic-compaction tick is played by a harness thread running the body of the ticker case of Partition.runPeriodicCompaction; sequentially consistent interleavings at Lock/RLock granularity of partition.go and log_file.go only; queries at quiescence only; writers only create series",
 		},
 		Run: func(c *vlib.Ctx) {
-			runCrash(c) // crash family first: of fixed size and limited to half of the budget
+			if o := os.Getenv("C14_ONLY"); o == "" || o == "small" {
+				share := 20 * time.Second
+				if c.Thorough() {
+					share = 120 * time.Second
+				}
+				if v := envInt("C14_SMALL_SHARE_S", 0); v > 0 { // development aid
+					share = time.Duration(v) * time.Second
+				}
+				runSmallSchedules(t, c, share) // small schedule part first: the smallest part, of fixed size, limited to its share
+				if o == "small" {
+					return
+				}
+			}
+			runCrash(c) // crash family next: of fixed size and limited to its share of the budget
 			if os.Getenv("C14_ONLY") == "crash" {
 				return
 			}
@@ -2577,6 +2964,15 @@ func TestCheck(t *testing.T) {
 			}
 			if cs.Crash != nil {
 				return replayCrash(cs.Crash)
+			}
+			if cs.Sched {
+				// the scheduler orders the goroutines the repo code spawns by goroutine id = creation order only while a
+				// single P hands out the ids (the workers run with GOMAXPROCS=1; the parent's confirmation replays and
+				// `vf replay` must do the same)
+				defer runtime.GOMAXPROCS(runtime.GOMAXPROCS(1))
+			}
+			if cs.Sched && cs.Small {
+				return replaySmallSched(t, cs)
 			}
 			if cs.Sched {
 				return replaySched(t, cs)
